@@ -71,6 +71,10 @@ def corpus_states():
     # witness of the NaN at the vacuum front (sampling speed = uR - 2aR/(g-1)): rho = P = NaN before the fan bases were guarded
     out.append(dict(tag="vaclimit", gamma=1.2, L=(0.6016483701552287, -0.623607716562567, 0.03380363602518363),
                     R=(77.5084690450635, 2.127718092142287, 0.010501529313424778)))
+    # KNOWN FINDING (not repaired): the exact star pressure (~1e-2002 P) underflows binary64 while (P*/P)^((g-1)/2g) = 0.1:
+    # the solver's contact is at 27452.6 instead of 24532.3 and vacuum is returned where the exact solution has the right state
+    out.append(dict(tag="vaclimit", gamma=1.001, L=(0.0051877609021462445, -25001.275173824313, 3.924627112786608),
+                    R=(0.8971357534950009, 25046.114988171797, 0.0730579557164159)))
     # vacuum input (correspondence of the vacuum branch only)
     out.append(dict(tag="vacR", gamma=1.4, L=(1.0, 0.2, 1.0), R=(0.0, 0.0, 0.0)))
     out.append(dict(tag="vacL", gamma=1.4, L=(0.0, 0.0, 0.0), R=(1.0, -0.2, 1.0)))
@@ -540,6 +544,7 @@ def run(ck):
     nor = 0
     worst = 0.0
     fail_hist = {}
+    per_clause = {}
     full_oracle = bool(ck.breaks) or not ck.quick
     for si, c in enumerate(states):
         if c["tag"] in ("vacL", "vacR"):
@@ -569,7 +574,8 @@ def run(ck):
             bad += 1
             kk = vk["clause_id"] + "/" + c["_w"][0]
             fail_hist[kk] = fail_hist.get(kk, 0) + 1
-            if bad <= 4:
+            per_clause[vk["clause_id"]] = per_clause.get(vk["clause_id"], 0) + 1
+            if per_clause[vk["clause_id"]] <= 3:        # a few inputs per failing clause
                 cc = {k: v for k, v in c.items() if not k.startswith("_")}
                 ck.violation("C11 fails on the real ExactRiemannSolver::solve: " + why,
                              {"case": cc, "input_lines": [l for l, (s2, x) in zip(lines, owner) if s2 == si and l[0] == "S"]},
